@@ -1543,6 +1543,22 @@ class _ExprNorm(ast.NodeTransformer):
                 ast.comprehension(target=ast.Tuple(elts=[ast.Name(id=a_, ctx=ast.Store()), ast.Name(id=b_, ctx=ast.Store())], ctx=ast.Store()),
                                   iter=self.visit_Call(ast.Call(func=node.func, args=[node.args[0]], keywords=[])), ifs=[test], is_async=0)])
             return ast.copy_location(self._fuse(comp), node)
+        # starmap(f, enumerate(xs)) -> (f(i, x) for i, x in enumerate(xs));   starmap(f, zip(a, b)) likewise;   starmap(f, ps) -> (f(*p) for p in ps)
+        if f.split(".")[-1] == "starmap" and len(node.args) == 2 and not node.keywords and (norm._attr_chain(node.args[0]) is not None or (
+                isinstance(node.args[0], ast.Call) and u(node.args[0].func).split(".")[-1] == "partial")):
+            self._fresh[0] += 1
+            src = node.args[1]
+            k = 2 if isinstance(src, ast.Call) and u(src.func) == "enumerate" and len(src.args) == 1 and not src.keywords else (
+                len(src.args) if isinstance(src, ast.Call) and u(src.func) == "zip" and src.args and not src.keywords and not any(isinstance(a, ast.Starred) for a in src.args) else 0)
+            if k:
+                names = [f"f{self._fresh[0]}s{j}_" for j in range(k)]
+                tgt = ast.Tuple(elts=[ast.Name(id=n_, ctx=ast.Store()) for n_ in names], ctx=ast.Store())
+                call = self.visit_Call(ast.Call(func=node.args[0], args=[ast.Name(id=n_, ctx=ast.Load()) for n_ in names], keywords=[]))
+            else:
+                v = f"f{self._fresh[0]}s_"
+                tgt = ast.Name(id=v, ctx=ast.Store())
+                call = self.visit_Call(ast.Call(func=node.args[0], args=[ast.Starred(value=ast.Name(id=v, ctx=ast.Load()), ctx=ast.Load())], keywords=[]))
+            return ast.copy_location(ast.GeneratorExp(elt=call, generators=[ast.comprehension(target=tgt, iter=src, ifs=[], is_async=0)]), node)
         # map(f, xs) -> (f(x) for x in xs)      (f a plain callable reference)
         if f == "map" and len(node.args) == 2 and not node.keywords and (norm._attr_chain(node.args[0]) is not None or (
                 isinstance(node.args[0], ast.Call) and u(node.args[0].func).split(".")[-1] in ("attrgetter", "itemgetter", "methodcaller", "partial"))):
